@@ -430,30 +430,18 @@ namespace detail
 	{
 		GLM_STATIC_ASSERT(std::numeric_limits<genType>::is_iec559 || GLM_CONFIG_UNRESTRICTED_FLOAT, "'roundEven' only accept floating-point inputs");
 
-		int Integer = static_cast<int>(x);
-		genType IntegerPart = static_cast<genType>(Integer);
-		genType FractionalPart = fract(x);
+		// Nearest integer, the even one on a tie. Works on the floating-point value itself so that
+		// magnitudes beyond the range of int, infinities and NaN are handled (they are returned unchanged).
+		genType const Floor = floor(x);
+		genType const Diff = x - Floor;
 
-		if(FractionalPart > static_cast<genType>(0.5) || FractionalPart < static_cast<genType>(0.5))
-		{
-			return round(x);
-		}
-		else if((Integer % 2) == 0)
-		{
-			return IntegerPart;
-		}
-		else if(x <= static_cast<genType>(0)) // Work around...
-		{
-			return IntegerPart - static_cast<genType>(1);
-		}
-		else
-		{
-			return IntegerPart + static_cast<genType>(1);
-		}
-		//else // Bug on MinGW 4.5.2
-		//{
-		//	return mix(IntegerPart + genType(-1), IntegerPart + genType(1), x <= genType(0));
-		//}
+		if(Diff < static_cast<genType>(0.5))
+			return Floor;
+		if(Diff > static_cast<genType>(0.5))
+			return Floor + static_cast<genType>(1);
+
+		genType const Half = Floor * static_cast<genType>(0.5);
+		return floor(Half) == Half ? Floor : Floor + static_cast<genType>(1);
 	}
 
 	template<length_t L, typename T, qualifier Q>
